@@ -9,7 +9,10 @@ package auth
 // GetPermission(s), routed to each store in turn through the AuthService seam), flushes,
 // close-and-reopen, time advances and cache purges. After every operation both stores must
 // give equal answers (and equal error / no error), equal to a plain map model; and the
-// answers must be unchanged after flush + close + reopen.
+// answers must be unchanged after flush + close + reopen. A "cwrite" operation performs a write
+// from a second client task while the first is inside Flush (the scheduler decides where in
+// Flush the write lands): a write acknowledged there must still survive the next
+// flush + close + reopen.
 
 import (
 	"fmt"
@@ -27,6 +30,7 @@ import (
 	"github.com/tucats/ego/internal/defs"
 	"github.com/tucats/ego/internal/verifsim/sim"
 	"github.com/tucats/ego/internal/verifsim/simrun"
+	"github.com/tucats/ego/internal/verifsim/sync"
 )
 
 func TestVerifSim(t *testing.T) { simrun.Main(t, c31Engine{}) }
@@ -43,7 +47,7 @@ var c31Perms = []string{"ego.logon", "ego.root", "ego.table.read", "custom"}
 var c31IDs = []uuid.UUID{uuid.MustParse("00000000-0000-0000-0000-0000000000a1"), uuid.MustParse("00000000-0000-0000-0000-0000000000b2"), uuid.MustParse("00000000-0000-0000-0000-0000000000c3")}
 
 // Ops: write [name, pwVariant, permMask(0..15, 16 = nil list), id] ; delete [name] ; read [name] ; list [masked] ;
-// setperm [name, perm, on] ; getperm [name, perm] ; getperms [name] ; flush ; reopen ; advance [s] ; purge
+// cwrite [name, pwVariant, permMask, id] (a write concurrent with a flush) ; setperm [name, perm, on] ; getperm [name, perm] ; getperms [name] ; flush ; reopen ; advance [s] ; purge
 func (c31Engine) Generate(seed uint64, tier string) *simrun.Case {
 	r := sim.NewRand(seed)
 	c := &simrun.Case{Prop: "C31", Engine: "users-hist", Seed: seed, SchedSeed: sim.Mix(seed, 31), Knobs: map[string]int64{}}
@@ -57,6 +61,12 @@ func (c31Engine) Generate(seed uint64, tier string) *simrun.Case {
 				mask = 16
 			}
 			c.Ops = append(c.Ops, simrun.Op{K: "write", A: []int64{name, int64(r.Intn(3)), mask, int64(r.Intn(len(c31IDs)))}})
+			if r.Chance(1, 4) {
+				c.Ops[len(c.Ops)-1].K = "cwrite"
+				if r.Chance(1, 2) {
+					c.Ops = append(c.Ops, simrun.Op{K: "reopen"})
+				}
+			}
 		case x < 30:
 			c.Ops = append(c.Ops, simrun.Op{K: "delete", A: []int64{name}})
 		case x < 48:
@@ -171,7 +181,7 @@ func (c31Engine) Execute(t *testing.T, c *simrun.Case, keepLog bool) *simrun.Out
 				}
 				name := c31Names[int(op.Arg(0))%len(c31Names)]
 				switch op.K {
-				case "write":
+				case "write", "cwrite":
 					u := defs.User{Name: name, ID: c31IDs[int(op.Arg(3))%len(c31IDs)], Password: []string{"$2a$04$abcdefghijklmnopqrstuv", "plainhash0123", ""}[op.Arg(1)%3]}
 					if op.Arg(2) < 16 {
 						u.Permissions = []string{}
@@ -180,6 +190,33 @@ func (c31Engine) Execute(t *testing.T, c *simrun.Case, keepLog bool) *simrun.Out
 								u.Permissions = append(u.Permissions, pn)
 							}
 						}
+					}
+					if op.K == "cwrite" {
+						// client 2 writes while client 1 flushes; each store in turn (AuthService is not involved)
+						for _, s := range []userIOService{file, db} {
+							s := s
+							var wg sync.WaitGroup
+							var ok1, ok2 bool
+							wg.Add(2)
+							sim.Go(func() { defer wg.Done(); ok1 = s.Flush() == nil })
+							sim.Go(func() {
+								defer wg.Done()
+								cp := u
+								cp.Permissions = append([]string(nil), u.Permissions...)
+								if u.Permissions != nil && cp.Permissions == nil {
+									cp.Permissions = []string{}
+								}
+								ok2 = s.WriteUser(2, cp) == nil
+							})
+							wg.Wait()
+							if !ok1 || !ok2 {
+								out.Fail("C31/model-disagrees", "op %d (%s): flush ok=%v, concurrent write ok=%v", i, op, ok1, ok2)
+							}
+						}
+						hist = append(hist, "flush || write "+c31UserString(u, nil))
+						out.Probe("writes_concurrent_with_a_flush", 1)
+						model[name] = u
+						break
 					}
 					both(i, op, "write "+c31UserString(u, nil), func(s userIOService) string {
 						cp := u
